@@ -88,6 +88,7 @@ func runC08(c *Ctx) {
 		}(capSec)
 	}
 	wg.Wait()
+	c08StoreRace(c) // after the timed scenarios: it is CPU bound and would starve their clocks
 }
 
 func c08Run(c *Ctx, capSec int) {
